@@ -4,6 +4,7 @@ package c20
 import (
 	"encoding/json"
 	"fmt"
+	"github.com/samaritan-proxy/samaritan/proc"
 	"net"
 	"testing"
 	"time"
@@ -51,6 +52,7 @@ func checkStats(c statCase) (inf statInfo, v *verdict) {
 	var stop func() bool
 	var w *sim.World
 	var tb *tcpsim.Backend
+	var tcpProc proc.Proc
 	if c.Kind == "redis" {
 		var err error
 		w, err = sim.NewWorld(c.Masters, 0)
@@ -89,7 +91,9 @@ func checkStats(c statCase) (inf statInfo, v *verdict) {
 		}
 		svc, addr = px.Name, px.Addr
 		stop = func() bool { return px.Stop(20 * time.Second) }
+		tcpProc = px.P
 	}
+	backendUp, hostPresent := true, true
 	stopped := false
 	defer func() {
 		if !stopped {
@@ -146,6 +150,10 @@ func checkStats(c statCase) (inf statInfo, v *verdict) {
 			if !cc.served {
 				// an accepted connection that is closed without service was rejected by the connection limit
 				// (the proxy notices client closes asynchronously, so this can also happen shortly after a close)
+				if c.Limit == 0 && c.Kind == "tcp" && (!backendUp || !hostPresent) {
+					cl.Close() // the backend is down or not a member: the proxy rightly closes the connection
+					continue
+				}
 				if c.Limit == 0 {
 					cl.Close()
 					return inf, &verdict{"connection-not-served", fmt.Sprintf("%s: a new connection was closed without service although no limit is configured", where)}
@@ -198,6 +206,38 @@ func checkStats(c statCase) (inf statInfo, v *verdict) {
 					break
 				}
 			}
+		case "drop", "kill":
+			if c.Kind != "tcp" {
+				break
+			}
+			// TCP service: the backend goes down / comes back (drop), the host leaves / re-joins the endpoint set (kill).
+			// Either way every established connection ends; the model forgets them so that it never counts more served
+			// connections than the proxy does.
+			if o.Op == "drop" {
+				if backendUp {
+					tb.Stop(true)
+				} else {
+					tb.Start()
+				}
+				backendUp = !backendUp
+			} else {
+				if hostPresent {
+					tcpProc.OnSvcHostRemove([]*host.Host{host.New(tb.Addr)})
+				} else {
+					tcpProc.OnSvcHostAdd([]*host.Host{host.New(tb.Addr)})
+				}
+				hostPresent = !hostPresent
+			}
+			inf.backendFailure = true
+			for k, cc := range conns {
+				cc.c.SetReadDeadline(time.Now().Add(5 * time.Second))
+				cc.c.Read(make([]byte, 8)) // EOF / reset from the proxy
+				cc.cl.Close()
+				delete(conns, k)
+			}
+			time.Sleep(2 * time.Millisecond)
+		}
+		switch o.Op {
 		case "drop":
 			if w != nil {
 				if w.Nodes[o.N%len(w.Nodes)].DropConns(o.N%2 == 0) > 0 {
